@@ -817,15 +817,16 @@ def r_rtree(rng):
 
     def members(depth):
         m = {}
-        for nm in rng.sample(['m.fa', 'n.fasta', 'sub/k.fa', 'sub/deep/j.fa', 'g.fa.gz', 'noext', 'in.zip', 'in.tar', 'x[2].fa'], rng.choice([1, 2, 3, 4])):
+        for nm in rng.sample(['m.fa', 'n.fasta', 'sub/k.fa', 'sub/deep/j.fa', 'g.fa.gz', 'noext', 'in.zip', 'in.tar', 'x[2].fa', 'v1.0/seqs.fa',
+                              'v1.0/r2.d/t', 'sub/README'], rng.choice([1, 2, 3, 4])):
             if nm.endswith('.gz'):
                 m[nm] = {'t': 'gz', 'ids': ids()}
             elif nm.startswith('in.'):
                 if depth > 0:
                     m[nm] = {'t': 'zip' if nm.endswith('zip') else 'tar', 'c': members(depth - 1)}
             else:
-                m[nm] = {'t': 'file', 'ids': ids()}          # PENDING FIX archdir: no directory with a dot in its name
-        if not any('.' in k.rsplit('/', 1)[-1] for k in m):
+                m[nm] = {'t': 'file', 'ids': ids()}          # directories with a dot in their names, members without one (F49, F50)
+        if not m:
             m['only.fa'] = {'t': 'file', 'ids': ids()}
         return m
     d = {}
@@ -845,14 +846,24 @@ def r_rtree(rng):
     elif k < 0.5:
         arg = 'd/' + rng.choice(sorted(d))
     elif k < 0.6:
-        arg = rng.choice(['**/*.fa', '*/?.zip', 'd/**/*.fa', 'nomatch*', 'd/nomatch.fa', 'e/pl*'])      # PENDING FIX archdir: no pattern matching a directory
+        arg = rng.choice(['**/*.fa', '*/?.zip', 'd/**/*.fa', 'nomatch*', 'd/nomatch.fa', 'e/pl*', 'd/**', '[d]*', 'd*/*.fa'])     # some also match directories
     elif k < 0.75:
         arg, arch = 'd/' + rng.choice(['*.zip', '*.tgz', 'z.zip', 'y.zip', '*']), rng.choice([True, 'zip', 'gztar', 'tar'])
     elif k < 0.9:
         arg, arch = rng.choice(['e/blob', 'e/blob2', 'e/blob*', 'e/b*']), rng.choice(['zip', 'tar', True, 'zip'])
     else:
         arg, arch = rng.choice(['e/gzplain', 'e/gz*', 'e/plain', 'd/g.fa.gz', 'd/*.gz']), rng.choice(['gz', 'gz', None])
+    if rng.random() < 0.15:
+        # the same files as downloads (requests.get is stubbed): data, gzip data, archives saved and resolved again
+        ent = rng.choice([x for x in sorted(d) if not any(ch in x for ch in '*?[')] or ['missing.fa'])
+        arg = 'http://h.example/p/' + ent + rng.choice(['', '', '?dl=1', '#frag'])
+        arch = rng.choice([None, None, None, 'gz', 'zip', 'gztar', True])
     return {'kind': 'rtree', 'tree': tree, 'arg': arg, 'archive': arch, 'entry': rng.choice(['read', 'read', 'iter_', 'read+fmt'])}
+
+
+def _rt_url_entry(arg):
+    from urllib.parse import urlparse
+    return os.path.basename(urlparse(arg).path) if '://' in arg[:10] else None
 
 
 def _rt_materialise(tree, root):
@@ -897,7 +908,7 @@ def _rt_oracle(case):
     try:
         root = _rt_setup(case, d)
         os.chdir(root)
-        realdir, globs, unpacks, gunzips = {}, {}, [], {}
+        realdir, globs, unpacks, gunzips, dirs = {}, {}, [], {}, set()
 
         def real(n):
             if n.startswith('<'):
@@ -915,14 +926,31 @@ def _rt_oracle(case):
             return p
         fmts = [None, 'zip', 'tar', 'gztar'] + ([case['archive']] if isinstance(case['archive'], str) and case['archive'] not in ('zip', 'tar', 'gztar', 'gz') else [])
         todo, seen = [case['arg']], set()
+        gets, gzdecs = {}, {}
+        ent = _rt_url_entry(case['arg'])
+        if ent is not None:
+            todo = []
+            node = case['tree']['d'].get(ent)
+            if node is not None:
+                with open(os.path.join('d', ent), 'rb') as f:
+                    payload = f.read().decode('latin-1')
+                if node['t'] == 'gz':
+                    gzdecs[payload] = _rt_text(node['ids'])
+                # the bytes of an archive do not matter to the model (only that the download succeeds)
+                gets[case['arg']] = 'ARCHIVE' if node['t'] in ('zip', 'tar', 'gztar') else payload
+                realdir['dl'] = os.path.join(d, 'dl_')
+                shutil.copy(os.path.join('d', ent), os.path.join(d, 'dl_' + ent))
+                todo = ['<dl>' + ent]
         while todo:
             n = todo.pop(0)
             if n in seen:
                 continue
             seen.add(n)
             if _g.has_magic(n):
-                res = [abstract(x) for x in sorted(_g.glob(real(n), recursive=True))]
+                found = sorted(_g.glob(real(n), recursive=True))
+                res = [abstract(x) for x in found]
                 globs[n] = res
+                dirs.update(abstract(x) for x in found if os.path.isdir(x))
                 todo += res
             rp = real(n)
             node = _rt_node(case['tree'], n) if os.path.isfile(rp) else None
@@ -940,11 +968,11 @@ def _rt_oracle(case):
                     else:
                         realdir[n] = tmp
                     unpacks.append((n, fmt, '<%s>' % n))
-                    todo.append('<%s>/**/*.*' % n)
+                    todo.append('<%s>/**/*' % n)
                 if node['t'] == 'gz':
                     with gzip.open(rp) as f:
                         gunzips[n] = f.read().decode('latin-1')
-        return globs, unpacks, gunzips
+        return globs, sorted(dirs), unpacks, gunzips, gets, gzdecs
     finally:
         os.chdir(cwd0)
         shutil.rmtree(d, ignore_errors=True)
@@ -957,6 +985,8 @@ def _rt_node(tree, name):
         for j, ch in enumerate(name):
             depth += (ch == '<') - (ch == '>')
             if depth == 0:
+                if name[1:j] == 'dl':                  # the saved download <dl><entry of d>
+                    return tree['d'].get(name[j + 1:])
                 arch = _rt_node(tree, name[1:j])
                 return (arch or {}).get('c', {}).get(name[j + 2:])
     dname, _, rest = name.partition('/')
@@ -983,13 +1013,12 @@ def _rt_readable(x, n, a):
 
 
 def _rt_all_ids(node):
-    """Every sequence reachable in a node: archives hold what their members with a dot in the name hold."""
+    """Every sequence reachable in a node: archives hold what their members hold."""
     if node['t'] in ('file', 'gz'):
         return list(node['ids'])
     out = []
     for name in sorted(node['c']):
-        if '.' in name.rsplit('/', 1)[-1]:
-            out += _rt_all_ids(node['c'][name])
+        out += _rt_all_ids(node['c'][name])
     return out
 
 
@@ -1017,6 +1046,19 @@ def impl_rtree(case):
             if getattr(M, 'glob', None) is real_glob:          # `from glob import glob` instead of `import glob`
                 st.enter_context(mock.patch.object(M, 'glob', sorted_glob))
             st.enter_context(mock.patch.object(sys, 'stdin', io.StringIO('')))
+            import requests
+
+            def fake_get(url, *a, **k):
+                path = os.path.join(root, 'd', _rt_url_entry(url) or '')
+
+                class R:
+                    content = open(path, 'rb').read() if os.path.isfile(path) else b''
+
+                    def raise_for_status(self):
+                        if not os.path.isfile(path):
+                            raise requests.HTTPError('404')
+                return R()
+            st.enter_context(mock.patch.object(requests, 'get', fake_get))
             if case['entry'] == 'iter_':
                 seqs = list(sugar.iter_(case['arg'], **kw))
             elif case['entry'] == 'read+fmt':
@@ -1024,8 +1066,9 @@ def impl_rtree(case):
             else:
                 seqs = sugar.read(case['arg'], **kw)
         out = [s.id for s in seqs]
-        if os.listdir(priv):
-            return 'FAIL: temporary directories left behind: %r' % os.listdir(priv)[:3]
+        left = [x for x in os.listdir(priv) if os.path.isdir(os.path.join(priv, x))]     # (a saved download is kept: main.py:199)
+        if left:
+            return 'FAIL: temporary directories left behind: %r' % left[:3]
         if not ncalls[0]:
             # glob was reached by another route than the patched attributes: its order is the file system's, compare as a multiset
             return ['<unordered>'] + sorted(out)
@@ -2163,15 +2206,18 @@ def model_term(case):
             facts = _hk_facts(f)
         return 'out (run_C03_hkind %s)' % ' '.join(coq_bool(x) for x in facts)
     if k == 'rtree':
-        globs, unpacks, gunzips = _rt_oracle(case)
+        globs, dirs, unpacks, gunzips, gets, gzdecs = _rt_oracle(case)
         a = case['archive']
         arch = 'ANone' if a is None else 'ATrue' if a is True else '(AStr %s)' % coq_bs(a)
-        return 'out (run_C03_rtree %s %s %s %s %s %s)' % (
+        return 'out (run_C03_rtree %s %s %s %s %s %s %s %s %s %s)' % (
             coq_nat(12),
             coq_list(['(%s, %s)' % (coq_bs(k_), coq_list([coq_bs(x) for x in v])) for k_, v in sorted(globs.items())]),
+            coq_list([coq_bs(x) for x in dirs]),
             coq_list(['(%s, (%s, Some %s))' % (coq_bs(n), coq_opt(f, coq_bs), coq_bs(t)) for n, f, t in unpacks]),
             coq_list(['(%s, %s)' % (coq_bs(k_), coq_bs(v)) for k_, v in sorted(gunzips.items())]),
-            coq_bs(case['arg']), arch)
+            coq_list(['(%s, %s)' % (coq_bs(k_), coq_bs(v)) for k_, v in sorted(gets.items())]),
+            coq_list(['(%s, %s)' % (coq_bs(k_), coq_bs(v)) for k_, v in sorted(gzdecs.items())]),
+            coq_bs('<dl>'), coq_bs(case['arg']), arch)
     if k == 'sess':
         ops = []
         for st in case['ops']:
@@ -2282,12 +2328,11 @@ def spec(case, got):
             return None
         if isinstance(got, str) or isinstance(got, dict):
             return 'write %r with archive=%r: %r' % (case['name'], case['arch'], got)
-        # OPEN (pending fixes archnodot / archdir): members without a dot, hidden members and members named like archives or gzip
-        # files are not found / not read as plain files; names with wildcard characters are patterns when read.  Everything else
-        # must come back.
+        # hidden members are skipped by glob, members named like archives or gzip files are unpacked / decompressed again, names with
+        # wildcard characters are patterns when read.  Everything else -- with or without a dot (F50) -- must come back.
         b = case['name'].rsplit('/', 1)[-1]
         import glob as _g
-        excused = '.' not in b or b.startswith('.') or b.endswith(('.gz', '.zip', '.tar', '.tgz', '.tbz2', '.txz', '.bz2', '.xz')) or _g.has_magic(case['name'])
+        excused = b.startswith('.') or b.endswith(('.gz', '.zip', '.tar', '.tgz', '.tbz2', '.txz', '.bz2', '.xz')) or _g.has_magic(case['name'])
         return None if excused else 'the archive written for %r (archive=%r) cannot be read back' % (case['name'], case['arch'])
     if k == 'hkind':
         if not isinstance(got, list):
@@ -2852,7 +2897,7 @@ def extra_checks(rng, tier, cov):
     cov['transport_note'] = 'transport independence is relational testing only (partial)'
 
 
-LEVEL_TEXT = ('Machine-checked Coq theorems (63, no axioms) over an executable model of sugar._io and of the command-line converter: detect() restores the position of any '
+LEVEL_TEXT = ('Machine-checked Coq theorems (66, no axioms) over an executable model of sugar._io and of the command-line converter: detect() restores the position of any '
               'handle and equals "first accepting sniffer of the regenerated FMTS_ALL chain" on the remaining content for text and '
               'binary handles; WHOLE-CHAIN detection soundness detect(render_d x) = d, with rejection lemmas for every earlier sniffer, '
               'for FASTA / Stockholm / GFF3 (writer models), SJSON / GenBank (first-line shapes), TSV / CSV of any length incl. beyond '
@@ -2877,19 +2922,20 @@ LEVEL_TEXT = ('Machine-checked Coq theorems (63, no axioms) over an executable m
               'stands at the next alignment (stockholm_read_consumes_one_alignment, stockholm_read_stays_inside); tied by the sess stream: '
               'histories on BytesIO / StringIO / binary and text files / NamedTemporaryFile / SpooledTemporaryFile / GzipFile, every answer '
               'and the final position compared with the model, the same history re-run without its detect calls; the recursion of '
-              '_resolve_fname (pattern -> files, archive -> <tmpdir>/**/*.*, gzip, plain) over a file-system oracle: fuel monotone '
+              '_resolve_fname (pattern -> files that are no directories, archive -> <tmpdir>/**/*, gzip, plain, download) over a file-system oracle: fuel monotone '
               '(resolve_run_fuel), the four branches with the scope of the archive option (resolve_run_branches), concatenation in glob '
               'order (resolve_run_glob_concat), every member of a flat archive read exactly once (resolve_run_flat_archive), equivalence '
               'with the declarative reading for any nesting depth (resolve_run_sound, resolve_run_complete, resolves_deterministic), the '
               'name decision as a first-match table stdin > URL > pattern > archive > gzip > plain (resolve_is_table, resolve_url_first), '
-              'a name found by a pattern is never expanded again (matched_name_never_globbed); tied by the rtree stream: real directory '
+              'a name found by a pattern is never expanded again (matched_name_never_globbed), downloads as part of the recursion '
+              '(resolve_run_url, url_saved_archive); tied by the rtree stream (requests.get stubbed for the URL cases): real directory '
               'trees with gzip files, wildcard characters in file names, nested archives, read / iter_ with every archive option; which plugin '
               'function read / iter_ / read_fts / write(mode=) / write_fts call as tables over the functions a plugin offers '
               '(dispatch_support over the regenerated SUPPORT tables, read_dispatch_spec, write_dispatch_spec, write_default_mode), tied '
               'by stub plugins offering every subset of functions; which file objects get a text layer (is_binary_handle_spec), tied by '
               'the hkind stream over 23 kinds of file objects (io, tempfile, gzip/bz2/lzma, codecs, zip/tar members, duck-typed, a pipe); '
-              'what sugar writes into an archive sugar reads back, PARTIAL: proved under a boolean guard (archive_roundtrip_partial) and '
-              'refuted without it (archive_roundtrip_refuted: a target name without a dot), tied by the wround stream; the tool option '
+              'what sugar writes into an archive sugar reads back, with or without a dot in the target name, under a boolean guard '
+              '(archive_roundtrip_partial, archive_roundtrip_nodot; archive_roundtrip_refuted for hidden names), wround stream; the tool option '
               '(tool_choice_spec). Model '
               'and code are tied on every run by differential testing of every modelled function (all reachable statements executed in '
               'the quick tier), renderer models against the real writers / readers, and histories of calls on shared state. Transport '
@@ -2916,9 +2962,10 @@ LEVEL_NOTE = ('PARTIAL / TESTED ONLY: (1) transport independence (path, Path, ha
               'of the io classes for binary files, has an encoding attribute, b in the mode text); that these are what decides is tied by '
               'the hkind stream, whose oracle is "read(0) returns bytes". (7) the recursion model takes what '
               'glob / unpack_archive / gzip answer as an oracle; the rtree stream asks the real functions on a copy of the generated tree '
-              'and sorts glob results; download branches are leaves. OPEN (genuine defect, pending fix archdir): an archive or pattern '
-              'holding a DIRECTORY with a dot in its name (v1.0/seqs.fa) raises IsADirectoryError -- such trees are kept out of the rtree '
-              'stream, see build/pending_fixes/C03_archdir.{diff,txt}; OPEN (pending fix archnodot): write(name, fmt, archive=...) for a '
-              'name without a dot (or a hidden name) produces an archive sugar cannot read back, because the unpacked content is looked '
-              'up with **/*.* -- modelled as it is (archive_roundtrip_refuted), build/pending_fixes/C03_archnodot.{diff,txt}. All theorems closed under the global context (no axioms).')
+              'and sorts glob results; downloads are answered by a stub serving the files of the tree. Found in this round and FIXED in /repo since: archdir (F49, 934e7a7: a directory matched by a pattern or unpacked from an '
+              'archive was read as a file) and archnodot (F50, 3c0a521: an archive written for a target name without a dot could not be '
+              'read back); the model follows the repaired code, the former failing calls are in corpus/C03/fixed_round7.json and in the '
+              'rtree / wround streams. Still refuted (archive_roundtrip_refuted): a HIDDEN target name (.x.fasta -- glob skips hidden '
+              'members) and a target named like a gzip file or an archive. '
+              'All theorems closed under the global context (no axioms).')
 TECHNIQUE = 'Coq proof over an executable model + regenerated tables + differential correspondence + relational transport testing'
